@@ -314,22 +314,253 @@ fn run_case(seed: u64, idx: u64) -> CaseOut {
     co
 }
 
+// ---- mid-draw lane -----------------------------------------------------------------------------------
+// Position updates do not take the bar's lock, so one can land while another thread is in the middle
+// of rendering a frame. A custom key placed between the built-in keys is the suspension point: when it
+// is written it lets a helper thread run `inc`/`dec`/`set_position` and waits until the position getter
+// shows the new value. The frame being rendered must still describe ONE position: every key of the
+// pos/len family (with an unknown length, len renders as the position) shows the same value.
+
+struct GateShared {
+    armed: std::sync::atomic::AtomicBool,
+    fired: AtomicU64,
+    gave_up: AtomicU64,
+    go: Mutex<Option<std::sync::mpsc::Sender<()>>>,
+}
+
+#[derive(Clone)]
+struct Gate(Arc<GateShared>);
+
+impl ProgressTracker for Gate {
+    fn clone_box(&self) -> Box<dyn ProgressTracker> {
+        Box::new(self.clone())
+    }
+    fn tick(&mut self, _: &ProgressState, _: HInstant) {}
+    fn reset(&mut self, _: &ProgressState, _: HInstant) {}
+    fn write(&self, state: &ProgressState, w: &mut dyn Write) {
+        let _ = w.write_str("G");
+        if !self.0.armed.swap(false, Ordering::SeqCst) {
+            return;
+        }
+        // (the bar's own getters take the state lock, which this thread holds: read the state we are given)
+        let before = state.pos();
+        if let Some(tx) = self.0.go.lock().unwrap().take() {
+            let _ = tx.send(());
+        }
+        self.0.fired.fetch_add(1, Ordering::SeqCst);
+        // wait (real time, bounded) for the helper's lock-free position update to become visible
+        let t0 = std::time::Instant::now();
+        while state.pos() == before {
+            if t0.elapsed().as_millis() > 2_000 {
+                self.0.gave_up.fetch_add(1, Ordering::SeqCst);
+                return;
+            }
+            std::thread::yield_now();
+        }
+    }
+}
+
+fn frame_of_flush(spy: &crate::spy::SpyTerm, k: usize) -> Vec<String> {
+    use crate::spy::CallKind;
+    let st = spy.state();
+    let Some(log) = &st.log else { return Vec::new() };
+    let mut flushes = 0usize;
+    let mut lines = Vec::new();
+    let mut prev_was_str = false;
+    for c in log.iter() {
+        if c.kind == CallKind::Flush {
+            flushes += 1;
+            if flushes > k {
+                break;
+            }
+            prev_was_str = false;
+            continue;
+        }
+        if flushes == k {
+            if c.kind == CallKind::WriteStr {
+                if !prev_was_str {
+                    lines.push(c.text.clone().unwrap_or_default());
+                }
+                prev_was_str = true;
+            } else {
+                prev_was_str = false;
+            }
+        }
+    }
+    lines
+}
+
+fn flush_count(spy: &crate::spy::SpyTerm) -> usize {
+    let st = spy.state();
+    st.log.as_ref().map_or(0, |l| l.iter().filter(|c| c.kind == crate::spy::CallKind::Flush).count())
+}
+
+fn mid_draw_case(seed: u64, idx: u64) -> CaseOut {
+    let mut rng = Rng::derive(seed, 1111, idx);
+    let replay = format!("m{seed}:{idx}");
+    // pos-family keys and, for a bar without length, the len family
+    const POS_KEYS: [&str; 5] = ["pos", "human_pos", "bytes", "decimal_bytes", "binary_bytes"];
+    const LEN_KEYS: [&str; 5] = ["len", "human_len", "total_bytes", "decimal_total_bytes", "binary_total_bytes"];
+    let fmt = |key: &str, v: u64| -> String {
+        match key {
+            "pos" | "len" => v.to_string(),
+            "human_pos" | "human_len" => HumanCount(v).to_string(),
+            "bytes" | "total_bytes" => HumanBytes(v).to_string(),
+            "decimal_bytes" | "decimal_total_bytes" => DecimalBytes(v).to_string(),
+            _ => BinaryBytes(v).to_string(),
+        }
+    };
+    let len0 = if rng.chance(2, 3) { None } else { Some(rng.range(1, 1_000_000)) };
+    let nkeys = rng.range(2, 8) as usize;
+    let mut keys: Vec<&str> = Vec::new();
+    for _ in 0..nkeys {
+        keys.push(if rng.chance(1, 2) { *rng.pick(&POS_KEYS) } else { *rng.pick(&LEN_KEYS) });
+    }
+    let gate_at = rng.range(1, nkeys as u64 - 1) as usize; // the gate sits before keys[gate_at]
+    let mut parts: Vec<String> = Vec::new();
+    for (i, k) in keys.iter().enumerate() {
+        if i == gate_at {
+            parts.push("{gate}".into());
+        }
+        parts.push(format!("{{{k}}}"));
+    }
+    let spec = parts.join("|");
+    let shared = Arc::new(GateShared {
+        armed: std::sync::atomic::AtomicBool::new(false),
+        fired: AtomicU64::new(0),
+        gave_up: AtomicU64::new(0),
+        go: Mutex::new(None),
+    });
+    let style = ProgressStyle::with_template(&spec).unwrap().with_key("gate", Gate(shared.clone()));
+    let (pb, spy) = new_bar(250, 100, len0);
+    let p0 = match rng.below(4) {
+        0 => 0,
+        1 => rng.range(1, 1000),
+        2 => rng.range(1000, 1 << 40),
+        _ => rng.range(0, 99) * 1000 + 999,
+    };
+    let update = rng.below(3);
+    let delta = match rng.below(3) {
+        0 => 1,
+        1 => rng.range(1, 5000),
+        _ => rng.range(1, 1 << 30),
+    };
+    let p1 = match update {
+        0 => p0 + delta,
+        1 => p0.saturating_sub(delta.max(1)),
+        _ => {
+            let v = rng.range(0, 1 << 41);
+            if v == p0 { v + 1 } else { v }
+        }
+    };
+    let mut co = CaseOut::held(fnv1a(format!("{spec}:{len0:?}:{p0}:{p1}:{update}").as_bytes()), true);
+    let witness = J::obj()
+        .with("template", spec.clone())
+        .with("length", len0.map(|v| v.to_string()).unwrap_or("none".into()))
+        .with("position_before", p0.to_string())
+        .with("position_after", p1.to_string())
+        .with("update", ["inc", "dec", "set_position"][update as usize]);
+    if p1 == p0 {
+        co.nontrivial = false;
+        return co;
+    }
+    let res = catch_unwind(AssertUnwindSafe(|| -> Verdict {
+        pb.set_style(style);
+        pb.set_position(p0);
+        let (tx, rx) = std::sync::mpsc::channel::<()>();
+        *shared.go.lock().unwrap() = Some(tx);
+        let hb = pb.clone();
+        let helper = std::thread::spawn(move || {
+            if rx.recv().is_ok() {
+                match update {
+                    0 => hb.inc(p1 - p0),
+                    1 => hb.dec(p0 - p1),
+                    _ => hb.set_position(p1),
+                }
+            }
+        });
+        let before = flush_count(&spy);
+        shared.armed.store(true, Ordering::SeqCst);
+        pb.force_draw();
+        // (if the gate never fired, dropping the sender releases the helper)
+        shared.go.lock().unwrap().take();
+        let _ = helper.join();
+        let frame = frame_of_flush(&spy, before);
+        pb.abandon();
+        if shared.fired.load(Ordering::SeqCst) == 0 {
+            return Verdict::Inconclusive("the gate key was not written during the draw".into());
+        }
+        if shared.gave_up.load(Ordering::SeqCst) > 0 {
+            return Verdict::Inconclusive("the helper's position update did not become visible within 2 s".into());
+        }
+        let line = frame.first().cloned().unwrap_or_default();
+        let fields: Vec<&str> = line.split('|').collect();
+        if fields.len() != keys.len() + 1 {
+            return viol("mid-draw-frame-shape", vec!["concurrent-update".into()], format!("frame {line:?} does not have the {} fields of {spec}", keys.len() + 1), witness.clone(), replay.clone());
+        }
+        // which single position does the frame describe?
+        let mut candidates = vec![p0, p1];
+        let mut fi = 0usize;
+        let mut shown: Vec<String> = Vec::new();
+        for (i, k) in keys.iter().enumerate() {
+            if i == gate_at {
+                fi += 1;
+            }
+            let got = fields[fi].trim();
+            fi += 1;
+            shown.push(format!("{k}={got}"));
+            let is_len = LEN_KEYS.contains(k);
+            if is_len && len0.is_some() {
+                if got != fmt(k, len0.unwrap()) {
+                    return viol("mid-draw-length", vec!["concurrent-update".into()], format!("{k} shows {got:?}, length is {:?}", len0), witness.clone(), replay.clone());
+                }
+                continue;
+            }
+            candidates.retain(|p| fmt(k, *p) == got);
+        }
+        if candidates.is_empty() {
+            return viol(
+                "frame-mixes-two-positions",
+                vec!["concurrent-update".into(), if len0.is_none() { "no-length".into() } else { "with-length".into() }],
+                format!("a position update ({p0} -> {p1}) landed while the frame was being rendered; the frame {line:?} agrees with neither position as a whole: {}", shown.join(", ")),
+                witness.clone(),
+                replay.clone(),
+            );
+        }
+        Verdict::Held
+    }));
+    match res {
+        Ok(v) => co.verdict = v,
+        Err(p) => {
+            std::mem::forget(pb);
+            co.verdict = viol("panic", vec!["concurrent-update".into()], format!("panicked: {}", crate::world::panic_message(&p)), witness, replay);
+        }
+    }
+    co.count("mid_draw_updates_injected", 1);
+    co.see("mid_draw_update_kinds", update);
+    co
+}
+
 pub fn run(cfg: &RunCfg) -> PropResult {
     console::set_colors_enabled(false);
     let report = if let Some(case) = &cfg.case {
-        let mut it = case.split(':');
+        let mid = case.starts_with('m');
+        let mut it = case.trim_start_matches('m').split(':');
         let seed: u64 = it.next().and_then(|s| s.parse().ok()).unwrap_or(cfg.seed);
         let idx: u64 = it.next().and_then(|s| s.parse().ok()).unwrap_or(0);
         let mut r = crate::report::Report::default();
-        r.add(idx, run_case(seed, idx));
+        r.add(idx, if mid { mid_draw_case(seed, idx) } else { run_case(seed, idx) });
         r
     } else {
         let n = if cfg.thorough { 4_000_000 } else { 80_000 };
-        run_parallel(n, workers(), |i| run_case(cfg.seed, i))
+        let mut r = run_parallel(n, workers(), |i| run_case(cfg.seed, i));
+        let nm = if cfg.thorough { 200_000 } else { 4_000 };
+        r.merge(crate::report::run_parallel_tagged('m', nm, workers(), |i| mid_draw_case(cfg.seed, i)));
+        r
     };
     PropResult {
         report,
-        rule: "each evaluation: a bar with every documented non-bar key (26) plus a custom key and an unknown key on separate template lines goes through 1-25 updates (inc/set_position incl. u64 extremes, set_length/unset_length, texts, ticks, reset, abandon; >= 1 ms of virtual time between operations, up to days) and is drawn once; each rendered line is compared with the corresponding getter read at the same frozen instant passed through the public formatter; custom tracker tick/reset/write calls are logged and compared with the bar; distinct = (initial length, history) hash".into(),
+        rule: "each evaluation: a bar with every documented non-bar key (26) plus a custom key and an unknown key on separate template lines goes through 1-25 updates (inc/set_position incl. u64 extremes, set_length/unset_length, texts, ticks, reset, abandon; >= 1 ms of virtual time between operations, up to days) and is drawn once; each rendered line is compared with the corresponding getter read at the same frozen instant passed through the public formatter; custom tracker tick/reset/write calls are logged and compared with the bar; distinct = (initial length, history) hash; mid-draw lane: a custom key between 2-8 pos/len-family keys lets a helper thread run inc/dec/set_position while the frame is being rendered (the update is lock-free) and the frame must still describe one single position".into(),
         exhaustive: false,
     }
 }
